@@ -204,3 +204,25 @@ def r5(ctx, R):
     ua = [d for l, d in cs if d.startswith('u_avg')]
     want_ua = [f'u_avg = +P.u_init if {G}', f'u_avg += +1/(M)·L.u_avg[i1 - 1] for i1=1..M if {G} and not any((me is None for me in L.u_avg))']
     R.check(ua == want_ua, 'update_nodes :: the Jacobian is evaluated at the mean over the nodes of the (block-averaged) state', w, want_ua, ua)
+
+
+@rule('C15', 'C15.R6', 'QDiagonalization evaluates f at node m with the time of node m (residual and Jacobian solves see t_m = t + dt*c_m)', floor=3)
+def r6(ctx, R):
+    repo = ctx.repo
+    for meth in ('eval_f_at_all_nodes', 'update_nodes'):
+        fn = repo.func(SW, f'QDiagonalization.{meth}')
+        w = f'{SW}:QDiagonalization.{meth}'
+        R.fn(w)
+        cs = [d for l, d in _contribs(fn) if d.startswith('L.f[')]
+        want = 'L.f[i1] = +P.eval_f(L.u[i1], L.time + L.dt * self.coll.nodes[i1 - 1]) for i1=1..'
+        ok = len(cs) == 1 and cs[0].startswith(want)
+        R.check(ok, f'QDiagonalization.{meth} :: f[m] = f(u[m], t + dt*nodes[m-1]) for every node m = 1..M', w, want + 'M', cs)
+    fn = repo.func(SW, 'QDiagonalization.update_nodes')
+    cs = [d for l, d in _contribs(fn) if 'solve_jacobian' in d]
+    R.check(len(cs) == 1 and 't=L.time + L.dt * self.coll.nodes[i1 - 1]' in cs[0] and cs[0].startswith('x2[i1 - 1] = +P.solve_jacobian(x1[i1 - 1], self.w[i1 - 1] * L.dt'), 'update_nodes :: the m-th local solve is linearised at the time of node m', f'{SW}:QDiagonalization.update_nodes', 'solve_jacobian(x1[m], w[m]*dt, u=u_avg, t=t + dt*nodes[m])', cs)
+    gr = repo.func(SW, 'QDiagonalization.get_residual')
+    R.fn(f'{SW}:QDiagonalization.get_residual')
+    cs = [d for l, d in _contribs(gr)]
+    want = ['residual[i1 - 1] += -L.u[i1] for i1=1..M', 'residual[i1 - 1] += +L.u[0] for i1=1..M']
+    alt = [d for d in cs if d.startswith('residual[')]
+    R.check(sorted(re.sub(r'self\.level', 'L', re.sub(r'self\.coll\.num_nodes', 'M', d)) for d in alt) == sorted(want) or sorted(alt) == sorted(want), 'get_residual :: residual[m] = integrate()[m] - u[m+1] + u[0]', f'{SW}:QDiagonalization.get_residual', want, alt)
